@@ -45,6 +45,11 @@ def private_family(prog, root, prefix=None):
     roots = [root] if isinstance(root, str) else list(root)
     prefix = prefix if prefix is not None else roots[0].rsplit('::', 1)[0] + '::'
     fam = set(r for r in roots if r in prog.fns)
+    # closures are functions of their own in MIR; they may be handed to std combinators (unwrap_or_else, map) and have
+    # no call site in the crate
+    for n in prog.fns:
+        if '::{closure#' in n and n.split('::{closure#')[0] in fam:
+            fam.add(n)
     changed = True
     while changed:
         changed = False
@@ -55,8 +60,13 @@ def private_family(prog, root, prefix=None):
                 for n in names:
                     # methods of the impl, and trait methods implemented for the same type (a derived Default::default
                     # that `new` delegates to)
-                    if n in fam or n not in prog.fns or not (n.startswith(prefix) or
-                                                             n.startswith('<' + prefix[:-2] + ' as ')):
+                    if n in fam or n not in prog.fns:
+                        continue
+                    if '::{closure#' in n and n.split('::{closure#')[0] in fam:
+                        fam.add(n)          # a closure written inside a member is part of that member
+                        changed = True
+                        continue
+                    if not (n.startswith(prefix) or n.startswith('<' + prefix[:-2] + ' as ')):
                         continue
                     cs = set(c[0] for c in prog.callers(n))
                     if cs and cs <= fam:
